@@ -449,6 +449,11 @@ pub fn plan_probe(tier: &str, seed: u64) -> Vec<Batch> {
         v.push(Batch { check: "C10".into(), phase: "probe".into(), uni: uni.clone(), seed, lo: 0, hi: n, fresh: false, tier: tier.into(), extra: Value::Null });
         v.push(Batch { check: "C10".into(), phase: "probe-fresh".into(), uni, seed, lo: 0, hi: n, fresh: true, tier: tier.into(), extra: Value::Null });
     }
+    // the openat2 backend in a mount namespace without any /proc (warm only): the library's error
+    // rendering reads /proc/thread-self/fd/N and fails there - errnos must come through all the same
+    let mut ka = UniCfg::k();
+    ka.proc_opts = "absent".into();
+    v.push(Batch { check: "C10".into(), phase: "probe".into(), uni: ka, seed, lo: 0, hi: n, fresh: false, tier: tier.into(), extra: Value::Null });
     v
 }
 
@@ -624,7 +629,7 @@ pub fn finalise(tier: &str, seed: u64, res: coord::CheckResult, placements_total
         tier,
         seed,
         "fault_enumeration",
-        "for every scenario (operation x world x facade) in a K and an E universe, warm and (for a subset) first-use: record the fault-free trace, then one run per (index of a trapped call inside the operation, errno of that call's fault catalogue), one run per descriptor-creating call with EMFILE sticky from there on, two runs per call with ENOMEM / EIO sticky from there on (every later call that can report that errno fails with it / every later call of the same system call does), and k in {1,2,15,16,17,20} consecutive EAGAINs on every openat2; non-trivial = the placed fault actually fired; distinct = distinct (universe, scenario, placement)",
+        "for every scenario (operation x world x facade) in a K and an E universe, warm and (for a subset) first-use, and warm in a K universe whose mount namespace has no /proc: record the fault-free trace, then one run per (index of a trapped call inside the operation, errno of that call's fault catalogue), one run per descriptor-creating call with EMFILE sticky from there on, two runs per call with ENOMEM / EIO sticky from there on (every later call that can report that errno fails with it / every later call of the same system call does), and k in {1,2,15,16,17,20} consecutive EAGAINs on every openat2; non-trivial = the placed fault actually fired; distinct = distinct (universe, scenario, placement)",
         res,
         extra,
         vec![
